@@ -829,6 +829,16 @@ def _nf_init(v, form, n):
         for d in range(1, v['depth']):
             cur = {'in': cur}
         return cur
+    if form == 'tuple':                 # tuples at every level, the array items too
+        cur = (0, tuple(arr))
+        for d in range(1, v['depth']):
+            cur = (0, cur)
+        return cur
+    if form == 'mixed':                 # list at the top, tuples below it
+        cur = (0, arr)
+        for d in range(1, v['depth']):
+            cur = (0, cur)
+        return list(cur)
     cur = [0, arr]
     for d in range(1, v['depth']):
         cur = [0, cur]
@@ -858,14 +868,14 @@ def pre(ctx):
     f_a.set_source(name, text)
     from vlib import cc
     ffis['api'] = cc.build_api_module(f_a, name, ctx.tmp).ffi
-    forms = ['list', 'dict', 'len']
+    forms = ['list', 'dict', 'len', 'tuple', 'mixed']
     n_eval = 0
     for mode in ('inline', 'ool', 'api'):
         ffi = ffis[mode]
         for v in variants:
             k, depth = v['k'], v['depth']
             outer = 'struct nf%d_%d' % (k, depth - 1)
-            form = forms[(k + len(mode)) % 3]
+            form = forms[(k + len(mode)) % 5]
             n = 3 + k % 4
             case = {'nested_flex': v, 'mode': mode, 'form': form, 'n': n}
             if hasattr(ctx, 'journal'):
